@@ -558,7 +558,11 @@ func doWrite(f func(w io.Writer) error) (o wobs) {
 	return wobs{Bytes: buf.Bytes()}
 }
 
+// the closures of the last h2WriteCase call (re-run on the persistent Framers by runH2Write)
+var h2SeqFork, h2SeqRef func(w io.Writer) error
+
 func h2WriteCase(r *hk.Run, name, coqCall string, desc map[string]interface{}, fork, ref func(w io.Writer) error, model bool) {
+	h2SeqFork, h2SeqRef = fork, ref
 	fo, ro := doWrite(fork), doWrite(ref)
 	desc["kind"] = "h2-write"
 	desc["call"] = name
@@ -610,14 +614,30 @@ func runH2Write(r *hk.Run, rng *hk.Rand) {
 	blob := func() []byte {
 		return rng.Bytes(hk.Pick(rng, []int{0, 0, 1, 2, 9, 33, 100, 255, 256, 257}))
 	}
+	// ONE Framer per side kept over runs of 6 calls: what a call leaves in the Framer's write buffer
+	// must not leak into the next frame (the same call also goes through a fresh Framer)
+	var seqBufF, seqBufX bytes.Buffer
+	seqF, seqX := fh2.NewFramer(&seqBufF, nil), xh2.NewFramer(&seqBufX, nil)
+	var seqCalls []string
 	for i := 0; i < n; i++ {
 		m := i%modelEvery == 0
 		aiw := rng.Chance(15)
+		if i%6 == 0 {
+			seqBufF.Reset()
+			seqBufX.Reset()
+			seqF, seqX = fh2.NewFramer(&seqBufF, nil), xh2.NewFramer(&seqBufX, nil)
+			seqCalls = nil
+		}
 		mk := func(w io.Writer) (*fh2.Framer, *xh2.Framer) {
+			if w == io.Writer(&seqBufF) || w == io.Writer(&seqBufX) {
+				seqF.AllowIllegalWrites, seqX.AllowIllegalWrites = aiw, aiw
+				return seqF, seqX
+			}
 			f, x := fh2.NewFramer(w, nil), xh2.NewFramer(w, nil)
 			f.AllowIllegalWrites, x.AllowIllegalWrites = aiw, aiw
 			return f, x
 		}
+		h2SeqFork, h2SeqRef = nil, nil
 		A := hk.CoqBool(aiw)
 		switch rng.Intn(12) {
 		case 0:
@@ -760,6 +780,19 @@ func runH2Write(r *hk.Run, rng *hk.Rand) {
 				map[string]interface{}{"type": ty, "flags": flags, "sid": sid, "payload": fmt.Sprintf("%x", p)},
 				func(w io.Writer) error { f, _ := mk(w); return f.WriteRawFrame(fh2.FrameType(ty), fh2.Flags(flags), sid, p) },
 				func(w io.Writer) error { _, x := mk(w); return x.WriteRawFrame(xh2.FrameType(ty), xh2.Flags(flags), sid, p) }, m)
+		}
+		if h2SeqFork != nil {
+			var e1, e2 error
+			p1 := caught(func() { e1 = h2SeqFork(&seqBufF) })
+			p2 := caught(func() { e2 = h2SeqRef(&seqBufX) })
+			seqCalls = append(seqCalls, fmt.Sprint(i))
+			r.Count("h2.write.seq")
+			if p1 != p2 || fmt.Sprint(e1) != fmt.Sprint(e2) || !bytes.Equal(seqBufF.Bytes(), seqBufX.Bytes()) {
+				r.Fail(hk.Failure{Sig: "h2:write-seq", What: "successive Write* calls on ONE Framer put different bytes on the wire than golang.org/x/net/http2 (something of an earlier call leaked into a later frame)", Input: map[string]interface{}{"kind": "h2-write-seq", "calls": seqCalls, "position_in_run": i % 6},
+					Got: fmt.Sprintf("%x %v", trunc(seqBufF.Bytes()), e1), Want: fmt.Sprintf("%x %v", trunc(seqBufX.Bytes()), e2)})
+				seqBufF.Reset()
+				seqBufX.Reset()
+			}
 		}
 	}
 	// every combination of boundary priority parameters, through WritePriority and WriteHeaders
